@@ -12,8 +12,9 @@ Open Scope nat_scope.
 
 (** ** AdvDataFieldList.from_bytes *)
 
-Lemma gen_tlv_overflow_eq data l : gen_tlv_overflow data l = (31 <? length data).
-Proof. reflexivity. Qed.
+(** the overflow test in its normal form (the branch that only raises goes last): no overflow *)
+Lemma gen_tlv_overflow_eq data l : gen_tlv_overflow data l = negb (31 <? length data).
+Proof. unfold gen_tlv_overflow. py_unfold. destruct (31 <? length data) eqn:E; lia. Qed.
 
 Lemma gen_tlv_more_eq data l : gen_tlv_more data l = negb (length data <? 2).
 Proof. unfold gen_tlv_more. py_unfold. destruct (length data <? 2) eqn:E; lia. Qed.
@@ -74,8 +75,8 @@ Section WithUrllibGen.
     end.
 
   Definition from_bytes_gen (data : bytes) : outcome (list rec) :=
-    if gen_tlv_overflow data 0 then Raise AdvDataFieldListOverflow
-    else parse_loop_gen (length data) data.
+    if gen_tlv_overflow data 0 then parse_loop_gen (length data) data
+    else Raise AdvDataFieldListOverflow.
 
   Lemma parse_loop_gen_eq fuel : forall data, parse_loop_gen fuel data = parse_loop urlnorm fuel data.
   Proof.
@@ -93,7 +94,8 @@ Section WithUrllibGen.
 
   Lemma from_bytes_gen_eq data : from_bytes_gen data = from_bytes urlnorm data.
   Proof.
-    unfold from_bytes_gen, from_bytes. rewrite gen_tlv_overflow_eq, parse_loop_gen_eq. reflexivity.
+    unfold from_bytes_gen, from_bytes. rewrite gen_tlv_overflow_eq, parse_loop_gen_eq.
+    destruct (31 <? length data); reflexivity.
   Qed.
 End WithUrllibGen.
 
